@@ -1029,6 +1029,10 @@ def execute(sc):
             raise
         violation = {"kind": "spurious-exception", "site": site,
                      "detail": f"step {step_i} {sc['steps'][step_i]['op']}: {type(e).__name__}: {str(e)[:300]}", "step": step_i}
+    if violation is None and sim.race is not None:
+        r_ = sim.race
+        violation = {"kind": "array-modified-while-task-parked", "site": r_["function"],
+                     "detail": f"array `{r_['variable']}` (shape {r_['shape']}) held by {r_['function']}() changed while that task was parked at {r_['parked_at']}: another task wrote into it"}
     st = sim.stats
     kinds = sorted({type(m).__name__ + ":" + getattr(m, "kind", "") for _, m in ctx.pool})
     res = {
